@@ -14,7 +14,8 @@ import procoracle as po
 FAMILIES = ['process', 'solver', 'curve', 'fit', 'mixture', 'component', 'membrane']
 BRIDGES = ['br_']
 PROPS_V = 'Props/C20.v'
-BUDGET = {'quick': 40, 'thorough': 600}
+EXTRA_TARGETS = ['Model/NumCheck.vo']
+BUDGET = {'quick': 90, 'thorough': 900}
 ORACLE_RULE = ('random call sequences of length 2..12 over the modelling entry points (flux solver, helpers, ideal/non-ideal curves, 4 process kinds, fit, best-fit search) '
                'sharing ONE membrane, mixture, curve set (mass or mole fraction curves), conditions and measurement object; after every call a deep snapshot of all shared '
                'objects is compared with the previous one, and the numeric result is compared bit-for-bit with the same call made first on deep copies taken before the '
@@ -35,6 +36,8 @@ def snap(o, depth=0):
         return 'deep'
     if hasattr(o, '__attrs_attrs__'):
         return (type(o).__name__,) + tuple((a.name, snap(getattr(o, a.name), depth + 1)) for a in o.__attrs_attrs__)
+    if isinstance(o, dict):
+        return ('dict',) + tuple((str(k), snap(v, depth + 1)) for k, v in sorted(o.items(), key=lambda kv: str(kv[0])))
     if isinstance(o, (list, tuple)):
         return (type(o).__name__,) + tuple(snap(x, depth + 1) for x in o)
     if isinstance(o, numpy.ndarray):
@@ -111,7 +114,10 @@ def oracle(rng, tier):
         w = make_world(rng)
         p = pv.Pervaporation(w['mem'], w['m'])
         pristine = copy.deepcopy(w)
-        names = [rng.choice(sorted(CALLS)) for _ in range(rng.randint(2, 12))]
+        pool = sorted(CALLS)
+        rng.shuffle(pool)
+        k = rng.randint(2, 12)
+        names = (pool + [rng.choice(sorted(CALLS)) for _ in range(12)])[:k]   # without replacement first: every entry point appears often
         h0 = builtins_hash()
         prev = snap(w)
         for i, name in enumerate(names):
@@ -139,6 +145,14 @@ def oracle(rng, tier):
                                           'feed': [pristine['x'].p, pristine['x'].type]}, 'ok': ok, 'detail': detail, 'nontrivial': i > 0}
             if not ok:
                 break
+
+
+def correspondence(tier, seed):
+    import corr_numeric
+    budget = {'process': 10, 'solver': 10, 'thermo': 10, 'curve': 5, 'membrane': 5}
+    if tier == 'thorough':
+        budget = {k: v * 12 for k, v in budget.items()}
+    return corr_numeric.run(seed, budget, nmax=30 if tier == 'quick' else 200, tag='C20')
 
 
 def replay(rep):
